@@ -55,6 +55,22 @@ theorem equal_iff (a b : Value) (h : a ≠ .null ∨ b ≠ .null) : a.equal b = 
   · simp at h
   · simp
 
+/-- the btrees' `Less` on rows (GROUP BY keys, ORDER BY items, MIN/MAX/array_agg) is exactly the strict part of
+    the row order — it relies on `Compare` returning −1 (not just a negative number) for "less" -/
+theorem lessRows_iff (a b : List Value) : lessRows a b = true ↔ cmpList a b < 0 := by
+  induction a generalizing b with
+  | nil => cases b <;> simp [lessRows, cmpListWith]
+  | cons x xs ih =>
+    cases b with
+    | nil => simp [lessRows, cmpListWith]
+    | cons y ys =>
+      have r := cmpWith_range cmpFloatFixed_laws x y
+      have hb : (cmpWith cmpFloatFixed x y == -1) = true ↔ cmpWith cmpFloatFixed x y = -1 := by simp
+      simp only [lessRows, cmpListWith, bne_iff_ne, ne_eq, ite_not]
+      split
+      · exact ih ys
+      · rw [hb]; constructor <;> intro h <;> omega
+
 /-- the full-strength statement of the property for a comparison/hash pair -/
 def Statement (c : Value → Value → Int) (hsh : UInt64 → Value → UInt64) : Prop :=
   (∀ a, c a a = 0) ∧ (∀ a b, c a b = - c b a) ∧
